@@ -1,7 +1,7 @@
 //! C06 / C07 / C08: registry codecs on RegGen registries.
 
 use crate::args::Args;
-use scale::{Decode, Encode};
+use scale::{Decode, DecodeLimit, Encode};
 use scale_info::PortableRegistry;
 use serde_json::json;
 use std::collections::HashMap;
@@ -167,6 +167,27 @@ pub fn run(a: &Args) -> Report {
                     Err(p) => rep.violation("C06/lib-decode-of-ref", format!("library panics on layout bytes: {}", p), case()),
                 }
                 rep.count("bytes_compared", ref_bytes.len() as u64);
+                // other entry points of the codec must agree with the layout too
+                if r.encoded_size() != ref_bytes.len() || r.size_hint() > 16 * ref_bytes.len() + 64 {
+                    rep.violation("C06/encoded-size", format!("encoded_size() = {}, layout has {} bytes", r.encoded_size(), ref_bytes.len()), case());
+                }
+                let via = r.using_encoded(|b| b.to_vec());
+                if via != ref_bytes {
+                    rep.violation("C06/using-encoded-differs", "using_encoded hands out bytes that differ from the layout".into(), case());
+                }
+                // skipping an encoded registry consumes exactly the layout's bytes
+                let mut with = ref_bytes.clone();
+                with.extend_from_slice(&[0xAA, 0x55, 0x01]);
+                let mut inp = &with[..];
+                match guard(|| <PortableRegistry as Decode>::skip(&mut inp)) {
+                    Ok(Ok(())) if inp.len() == 3 => rep.count("skips_checked", 1),
+                    other => rep.violation("C06/skip", format!("Decode::skip over layout bytes: {:?}, {} bytes left (want 3)", other.map(|x| x.map_err(|e| e.to_string())), inp.len()), case()),
+                }
+                // a depth limit far above the nesting of the layout (registry > type > def > field > docs) must not matter
+                match guard(|| PortableRegistry::decode_with_depth_limit(48, &mut &ref_bytes[..])) {
+                    Ok(Ok(r2)) if r2 == r => rep.count("depth_limited_decodes", 1),
+                    other => rep.violation("C06/lib-decode-of-ref-depth-limit", format!("decode_with_depth_limit(48) of layout bytes: {:?}", other.map(|x| x.map(|_| "different registry").map_err(|e| e.to_string()))), case()),
+                }
                 // an input that cannot tell its remaining length (streaming reader) must decode the same bytes to the same value
                 if i % 4 == 0 {
                     match guard(|| PortableRegistry::decode(&mut scale::IoReader(&ref_bytes[..]))) {
@@ -210,6 +231,33 @@ pub fn run(a: &Args) -> Report {
                     other => rep.violation("C07/trailer", format!("decode with trailer failed: {:?}", other.map(|x| x.map(|_| ()))), case()),
                 }
                 rep.count("trailers_checked", 1);
+                match guard(|| PortableRegistry::decode_all_with_depth_limit(48, &mut &lib_bytes[..])) {
+                    Ok(Ok(r2)) if r2 == r => rep.count("depth_limited_roundtrips", 1),
+                    other => rep.violation("C07/roundtrip-depth-limit", format!("decode_all_with_depth_limit(48)(encode(r)): {:?}", other.map(|x| x.map(|_| "different registry").map_err(|e| e.to_string()))), case()),
+                }
+                // encoding is a function of the value: edit the registry in place (same buffer, same length) and encode again
+                // through every entry point
+                {
+                    let mut m = r.clone();
+                    let first = m.using_encoded(|b| b.to_vec());
+                    if first != lib_bytes {
+                        rep.violation("C07/nondeterministic", "using_encoded differs from encode for the same value".into(), case());
+                    }
+                    if !m.types.is_empty() {
+                        let k = rng.below(m.types.len());
+                        m.types[k].ty.docs.push("edited in place".to_string());
+                        m.types[k].id = m.types[k].id.wrapping_add(1);
+                        let want = refcodec::encode(&m);
+                        let got1 = m.using_encoded(|b| b.to_vec());
+                        let got2 = m.encode();
+                        let mut got3 = Vec::new();
+                        m.encode_to(&mut got3);
+                        if got1 != want || got2 != want || got3 != want {
+                            rep.violation("C07/stale-encoding", "after an in-place edit an encoding entry point returns bytes of the previous value".into(), case());
+                        }
+                        rep.count("in_place_edits_reencoded", 1);
+                    }
+                }
                 // determinism
                 let again = r.encode();
                 let cl = r.clone().encode();
